@@ -226,3 +226,104 @@ def register():
     I.CONTRACTS[ParserBinary._parse_numeric_array] = spec_parse_numeric_array
     F.LOOPS[('ComposerBinary._compose_numeric_array', 0)] = loop_compose_numeric_array()
     F.LOOPS[('ParserBinary._parse_numeric_array', 0)] = loop_parse_numeric_array()
+    register_arrays()
+
+
+# ---------------------------------------------------------------------------------------------------------------
+# ParserBinary._parse_parsable_derived_array(self, items_size, item_classes, fallback_class=None)
+# Contract for *coded* item kinds (every item is one fixed-width code: enum factory, optionally wrapped, with an
+# optional TlsInvalidType fallback of the same width). Other item kinds are outside the contract (Decline): the
+# body is interpreted, its while loop unrolled up to the bound configured for the check (a bounded stand-in).
+def coded_kind(item_classes, fallback_class):
+    from cryptoparser.common.base import NByteEnumParsable
+    from cryptoparser.tls.grease import TlsInvalidTypeBase
+    from cryptoparser.tls.version import TlsProtocolVersion
+    from contracts import common_base as CB
+    if len(item_classes) != 1:
+        return None
+    ic = item_classes[0]
+    wrap = None
+    if ic is TlsProtocolVersion:
+        from cryptoparser.tls.version import TlsVersionFactory
+        ic, wrap = TlsVersionFactory, TlsProtocolVersion
+    if not (isinstance(ic, type) and issubclass(ic, NByteEnumParsable)):
+        return None
+    w = ic.get_byte_num()
+    if fallback_class is not None:
+        if not (isinstance(fallback_class, type) and issubclass(fallback_class, TlsInvalidTypeBase)
+                and fallback_class.get_byte_num() == w):
+            return None
+    return CB.coded_spec(ic.get_enum_class(), fallback_class, w, wrap)
+
+
+def spec_parse_parsable_derived_array(self, items_size, item_classes, fallback_class=None):
+    P = E.cur()
+    sp = coded_kind(list(item_classes), fallback_class)
+    if sp is None:
+        raise I.Decline()
+    p = ops.as_seq(self.f['_parsable'])
+    pl = as_int(self.f['_parsed_length'])
+    s = as_int(items_size)
+    if not P.entails(s >= 0):
+        raise I.Decline()
+    if P.branch(s > p.n - pl):
+        raise E.PyRaise(I.construct(NotEnoughData, [], dict(bytes_needed=wrap_int(s - (p.n - pl)))))
+    w = sp.width
+    n = V.simp(s / w)
+    r = V.simp(s % w)
+    code_at = lambda j: S.dec(p.at, pl + V.iv(j) * w, w, '!')
+    jq = z3.Int('j!q')
+    if sp.fallback_cls is None:
+        if P.choose('some code unassigned'):
+            bad = V.fresh_int('bad')
+            P.assume(z3.And(bad >= 0, bad < n, z3.Not(sp.known(code_at(bad))),
+                            z3.ForAll([jq], z3.Implies(z3.And(jq >= 0, jq < bad), sp.known(code_at(jq))))))
+            rest = V.slice_seq(p, pl + bad * w, pl + s)
+            raise E.PyRaise(ops.mk_exc(ValueError, rest))
+        P.assume(z3.ForAll([jq], z3.Implies(z3.And(jq >= 0, jq < n), sp.known(code_at(jq)))))
+    if P.branch(r > 0):
+        raise E.PyRaise(I.construct(NotEnoughData, [], dict(bytes_needed=wrap_int(w - r))))
+    if sp.fallback_cls is None and sp.wrap_known is None:
+        return SSeq(n, lambda j: sp.first_index(code_at(j)), 'list', ('enum', sp.enum_cls)), wrap_int(s)
+    return SSeq(n, code_at, 'list', ('coded', sp)), wrap_int(s)
+
+
+def loop_parse_parsable_derived_array():
+    def ctxvals(frame):
+        me = frame.lookup('self')
+        p = ops.as_seq(me.f['_parsable'])
+        pl = as_int(me.f['_parsed_length'])
+        s = as_int(frame.lookup('items_size'))
+        sp = coded_kind(list(frame.lookup('item_classes')), frame.lookup('fallback_class'))
+        if sp is None:
+            raise E.Unsupported('_parse_parsable_derived_array over variable-size items needs a bound')
+        return p, pl, s, sp
+
+    def state(frame, ctx, k):
+        p, pl, s, sp = ctxvals(frame)
+        w = sp.width
+        code_at = lambda j: S.dec(p.at, pl + V.iv(j) * w, w, '!')
+        if sp.fallback_cls is None and sp.wrap_known is None:
+            items = SSeq(k, lambda j: sp.first_index(code_at(j)), 'list', ('enum', sp.enum_cls))
+        else:
+            items = SSeq(k, code_at, 'list', ('coded', sp))
+        return {'unparsed_bytes': V.slice_seq(p, pl + V.iv(k) * w, pl + s, 'bytes'), 'items': items}
+
+    def qfacts(frame, ctx):
+        p, pl, s, sp = ctxvals(frame)
+        if sp.fallback_cls is not None:
+            return []
+        w = sp.width
+        return [lambda j: sp.known(S.dec(p.at, pl + V.iv(j) * w, w, '!'))]
+
+    def facts(frame, ctx, k):
+        p, pl, s, sp = ctxvals(frame)
+        return [V.iv(k) * sp.width <= s]
+    lc = loops.FunctionalLoop(state, qfacts, facts)
+    lc.applies = lambda frame: coded_kind(list(frame.lookup('item_classes')), frame.lookup('fallback_class')) is not None
+    return lc
+
+
+def register_arrays():
+    I.CONTRACTS[ParserBinary._parse_parsable_derived_array] = spec_parse_parsable_derived_array
+    F.LOOPS[('ParserBinary._parse_parsable_derived_array', 0)] = loop_parse_parsable_derived_array()
